@@ -256,17 +256,18 @@ def deepCopySliced (a : Arr) : Arr := gather a (List.range a.len)
 def andNulls (c p : Option Nulls) (len : Nat) : Option Nulls :=
   some ⟨0, (List.range len).map (fun i => validAt c i && validAt p i)⟩
 
+/-- the per-child closure of `pushdown_nulls`: child validity `&` struct validity, or the struct validity itself -/
+def pushChild (n : Nulls) (len : Nat) (c : Arr) : Arr :=
+  match c.nulls with
+  | some _ => c.setNulls (andNulls c.nulls (some n) len)
+  | none => c.setNulls (some n)
+
 /-- struct.rs `StructArrayExt::pushdown_nulls` (one level) -/
 def pushdownNulls : Arr → Arr
   | .struct len nulls names cols =>
       match nulls with
       | none => .struct len nulls names cols
-      | some n =>
-        .struct len nulls names
-          (cols.map (fun c =>
-            match c.nulls with
-            | some _ => c.setNulls (andNulls c.nulls (some n) len)
-            | none => c.setNulls (some n)))
+      | some n => .struct len nulls names (cols.map (pushChild n len))
   | a => a
 
 /-! ## lib.rs: take, project -/
